@@ -6,7 +6,7 @@ import PgmVerif.Model.BN
 import PgmVerif.Model.Graph
 namespace PgmVerif
 
-def sortDedup (l : List Nat) : List Nat := (l.toArray.qsort (· < ·)).toList.eraseDups
+def sortDedup (l : List Nat) : List Nat := (l.mergeSort (fun a b => decide (a ≤ b))).eraseDups
 
 /-- an assertion X ⟂ Y | Z with X, Y, Z kept as sorted duplicate-free lists -/
 structure IA where
